@@ -48,7 +48,7 @@ def run(ctx):
     for (p, rnd), (n, why) in sorted(g1.items()):
         ctx.ob('C02.R1', f'sampler:{p}:is_random={rnd}', CODEMAIN,
                f'{n} shapes rooted at {p} sample the prescribed item', why is None, why or '')
-    ctx.floor('C02.R1', sum(n for n, _ in g1.values()), 300, 'sequence-like shape evaluations')
+    ctx.floor('C02.R1', sum(n for n, _ in g1.values()), 150, 'sequence-like shape evaluations')
 
     # ---- R2 ----------------------------------------------------------------------
     ctx.rule('C02.R2', 'the random draw is defined whenever used and drawn once: generated code mentions the '
